@@ -305,8 +305,9 @@ theorem chain_equals_monolithic (bs : List BlockSpec) (e : Env)
     (hpre : ∀ pre b post, bs = pre ++ b :: post → b.Pre (chainEval (pre.map (·.run)) e))
     (hself : ∀ b ∈ bs, ∀ k ∈ b.ext, k ∉ b.writes) :
     (∀ b ∈ bs, b.Sat (chainEval (bs.map (·.run)) e)) ∧
-    ∀ e' : Env, (∀ b ∈ bs, b.Sat e') → (∀ k, (∀ b ∈ bs, k ∉ b.writes) → e' k = e k) →
-      ∀ k, e' k = chainEval (bs.map (·.run)) e k := by
+    ∀ e' : Env, (∀ b ∈ bs, b.Sat e') →
+      (∀ k, (∀ b ∈ bs, k ∉ b.writes) → e'.val k = e.val k) →
+      ∀ k, e'.val k = (chainEval (bs.map (·.run)) e).val k := by
   have hsat := chain_satisfies_all bs e hvalid hpre
   refine ⟨hsat, fun e' hsat' hsame => ?_⟩
   apply chain_unique bs e e' hsat hsat' hsame ?_ hself
